@@ -305,14 +305,45 @@ M("currentcolor-stroke-uses-inherited-color", ["C14"], "stroke=currentColor igno
 M("opacity-replaces-alpha", ["C14"], "fill-opacity replaces the colour's own alpha (the repaired defect)",
   ("                self.fill.opacity = self.fill.opacity * float(fill_opacity)", "                self.fill.opacity = float(fill_opacity)"))
 M("css-comments-kept", ["C14"], "comments in the style sheet are not stripped",
-  ('                        textstyle = re.sub(REGEX_CSS_COMMENT, "", textstyle)', '                        textstyle = textstyle'))
+  ('                    textstyle = re.sub(REGEX_CSS_COMMENT, "", textstyle)', '                    textstyle = textstyle'))
 M("stroke-width-det-not-rooted", ["C14"], "stroke width scaled by |det| instead of its square root",
   ("                return width * sqrt(abs(det))", "                return width * abs(det)"))
 M("non-scaling-stroke-ignored", ["C14"], "vector-effect is ignored: the full transform scales the stroke",
   ("                    transform = Matrix(self.values.get(\"viewport_transform\", \"\"))", "                    pass"))
 M("selector-list-not-split", ["C14"], "comma separated selector lists are stored as one selector",
-  ('                            for selector in key.split(","):  # Can comma select subitems.', '                            for selector in [key]:  # Can comma select subitems.'))
+  ('                        for selector in key.split(","):  # Can comma select subitems.', '                        for selector in [key]:  # Can comma select subitems.'))
 M("stroke-opacity-on-fill", ["C14"], "stroke-opacity is read from fill-opacity",
   ("        stroke_opacity = values.get(SVG_ATTR_STROKE_OPACITY, stroke_opacity)", "        stroke_opacity = values.get(SVG_ATTR_FILL_OPACITY, stroke_opacity)"))
 M("class-split-single-space", ["C14"], "class lists are matched as one string",
   ('                svg_classes = attributes.get(SVG_ATTR_CLASS, "").split()', '                svg_classes = [attributes.get(SVG_ATTR_CLASS, "")]'))
+
+# ---- writer round trip (C20) ---------------------------------------------------------------------------------
+M("writer-skips-zero-attributes", ["C20"], "zero-valued rect coordinates are not written (the repaired defect)",
+  ("        if node.x is not None:\n            xml_tree.set(SVG_ATTR_X, str(node.x))\n        if node.y is not None:\n            xml_tree.set(SVG_ATTR_Y, str(node.y))\n        if node.rx is not None:", "        if node.x:\n            xml_tree.set(SVG_ATTR_X, str(node.x))\n        if node.y:\n            xml_tree.set(SVG_ATTR_Y, str(node.y))\n        if node.rx is not None:"))
+M("writer-circle-two-radii", ["C20"], "a circle with two radii is written with r = rx (the repaired defect)",
+  ("        if node.rx == node.ry:\n            xml_tree = subxml(xml_tree, SVG_TAG_CIRCLE)\n        else:", "        if True:\n            xml_tree = subxml(xml_tree, SVG_TAG_CIRCLE)\n        else:"),
+  ("        if node.rx == node.ry:\n            if node.rx is not None:\n                xml_tree.set(SVG_ATTR_RADIUS, str(node.rx))", "        if True:\n            if node.rx is not None:\n                xml_tree.set(SVG_ATTR_RADIUS, str(node.rx))"))
+M("writer-use-keeps-transform", ["C20"], "a use written as a group keeps its own transform (the repaired defect)",
+  ('    if hasattr(node, "transform") and not isinstance(node, (Group, Use)):', '    if hasattr(node, "transform") and not isinstance(node, Group):'))
+M("writer-viewport-inverse-wrong-side", ["C20"], "the inverse viewport transform is multiplied on the wrong side",
+  ("        if viewport_transform:\n            t = t * viewport_transform", "        if viewport_transform:\n            t = viewport_transform * t"))
+M("writer-matrix-four-decimals", ["C20"], "matrices are written with four decimals",
+  ('                "matrix(%f, %f, %f, %f, %f, %f)" % (t.a, t.b, t.c, t.d, t.e, t.f),', '                "matrix(%.4f, %.4f, %.4f, %.4f, %.4f, %.4f)" % (t.a, t.b, t.c, t.d, t.e, t.f),'))
+M("writer-matrix-transposed", ["C20"], "b and c are swapped in the written matrix",
+  ('                "matrix(%f, %f, %f, %f, %f, %f)" % (t.a, t.b, t.c, t.d, t.e, t.f),', '                "matrix(%f, %f, %f, %f, %f, %f)" % (t.a, t.c, t.b, t.d, t.e, t.f),'))
+M("writer-stroke-opacity-dropped", ["C20"], "stroke-opacity is never written",
+  ("            if stroke_opacity != 1.0 and stroke_opacity is not None:", "            if False:"))
+M("writer-fill-none-omitted", ["C20"], "fill none is omitted (reads back as black)",
+  ("        fill = node.fill\n        if fill is not None:", "        fill = node.fill\n        if fill is not None and fill.value is not None:"))
+M("writer-id-dropped-on-shapes", ["C20"], "ids are written for containers only",
+  ('    if hasattr(node, "id"):\n        if node.id is not None:', '    if hasattr(node, "id") and isinstance(node, (Group, Use)):\n        if node.id is not None:'))
+M("writer-polygon-as-polyline", ["C20"], "polygons are written as polylines",
+  ("        xml_tree = subxml(xml_tree, SVG_TAG_POLYGON)", "        xml_tree = subxml(xml_tree, SVG_TAG_POLYLINE)"))
+M("writer-svgz-unclosed", ["C20"], "the gzip stream is not closed (the repaired defect)",
+  ("            # The compressed stream is only complete once it is closed.\n            opened.close()", "            pass"))
+M("writer-nested-svg-own-inverse-only", ["C20"], "children of a nested svg are divided by its own viewport transform only (the repaired defect)",
+  ("            vt = viewport_transform * vt if vt else viewport_transform", "            vt = vt if vt else viewport_transform"))
+M("writer-stroke-width-unreified", ["C20"], "the stroke width is written from the source attribute, not the reified value",
+  ("                stroke_width = str(node.stroke_width)", "                stroke_width = str(node.values.get(SVG_ATTR_STROKE_WIDTH, node.stroke_width))"))
+M("writer-par-dropped", ["C20"], "preserveAspectRatio of a built svg is not written (the repaired defect)",
+  ("            if node.viewbox.preserve_aspect_ratio is not None:\n                # The viewport", "            if False:\n                # The viewport"))
